@@ -155,7 +155,7 @@ fn check_message(c: u8, n: u8, v: u16, mon: &mut Cc14Mon, rng: &mut Rng, hist: &
 }
 
 pub fn run_c07(cfg: &Cfg, rep: &mut Report) {
-    rep.rule("all 16x32x16384 ControlChange14BitMessage values: constructor, accessors, encoding to Raw and Structured, array conversion, then both short messages fed to a never-fresh scanner (carrying all earlier traffic plus seeded junk); constructor panic condition for all 128 controller numbers; every per-channel prior scanner state (none or any of 32x128 stored MSBs) x every controller number x boundary values; non-trivial = message with value > 127 (both bytes carry information) or a prior-state case; distinct by enumeration");
+    rep.rule("all 16x32x16384 ControlChange14BitMessage values: constructor, accessors, encoding to Raw and Structured, array conversion, then both short messages fed to a never-fresh scanner (carrying all earlier traffic plus seeded junk); constructor panic condition for all 128 controller numbers; every per-channel prior scanner state (none or any of 32x128 stored MSBs) x every controller number x boundary values; non-trivial = message with value > 127 (both bytes carry information) or a prior-state case; distinct by enumeration ; a subset of the messages is fed twice in a row; the same message is fed again after 66 000 further messages of one kind (note on, its own LSB, its own MSB, a non-contributing CC, another channel's MSB) on its channel");
     let vstride: usize = if cfg.as_c18 && !cfg.thorough { 97 } else { 1 };
     par(cfg, rep, |shard, nsh, rep| {
         let mut rng = Rng::derive(cfg.seed, 0xC07_00 + shard as u64);
@@ -325,7 +325,7 @@ pub fn c08_alphabet_v(full: bool, channel: u8, abstract_values: &[u8]) -> Vec<Ev
 }
 
 pub fn run_c08(cfg: &Cfg, rep: &mut Report) {
-    rep.rule("fixpoint exploration of (real scanner x history oracle) on one channel: quick alphabet = all 64 contributing controller numbers x values {0,1,127} + non-contributing representatives + other-channel traffic + reset; thorough (release build) = the full alphabet 64x128; plus seeded random histories over the full short-message alphabet on 16 channels; a history is non-trivial when the scanner reported at least once; distinct_nontrivial counts explorer states plus random histories with a report (random histories are seeded independently; collisions are not deduplicated but astronomically unlikely at length >= 5)");
+    rep.rule("fixpoint exploration of (real scanner x history oracle) on one channel: quick alphabet = all 64 contributing controller numbers x values {0,1,127} + non-contributing representatives + other-channel traffic + reset; thorough (release build) = the full alphabet 64x128; plus seeded random histories over the full short-message alphabet on 16 channels; a history is non-trivial when the scanner reported at least once; distinct_nontrivial counts explorer states plus random histories with a report (random histories are seeded independently; collisions are not deduplicated but astronomically unlikely at length >= 5) ; explorer runs rotate their abstract values and channels (fixed pair {0,1}, seeded pairs, spec-dictionary pairs such as {0,6}, {0,3}; thorough/release: every 7-bit value) ; repetition (pumping) workloads repeat every cycle of one or two symbols and every documented unit form 300x (unit forms and single symbols 66 000x) from several start states, applying all tail symbols to a copy after each iteration ; a third of the random histories draws number bytes, values and channels from the spec dictionary");
     let full = cfg.thorough && cfg.release && !cfg.as_c18;
     let pairs = crate::util::value_pairs(cfg, 0xC08, 3);
     let mut runs: Vec<(u8, Vec<u8>)> = if cfg.as_c18 { vec![(3u8, vec![0, 1, 127])] } else { vec![(0u8, vec![0, 1, 127]), (15u8, vec![0, 1, 127])] };
